@@ -10,7 +10,7 @@ from oasmc.engine import digest_arrays
 ID = "C13"
 RULE = (
     "complete product input mesh family x side x nx x ny x ref_axis_pos x variable alphabet (none; each variable alone at default,+v,-v; all "
-    "order-independent pairs; control-point counts with equal values); oracle = closed-form effect of each variable (oasmc ref_geom, "
+    "order-independent pairs; control-point counts with equal values; dihedral +-60 deg with twist of both signs: magnitude AND sense of the section rotation; multi-section and unified-spline parts); oracle = closed-form effect of each variable (oasmc ref_geom, "
     "inline) on the real Geometry group; non-trivial = output mesh differs from input (or the state is a default/no-op state)"
 )
 ASSUMPTIONS = ["finite alphabets for values; nx<=4, ny<=7", "left-half and full-span meshes (right halves are C07's subject)", "OpenMDAO/NumPy trusted"]
